@@ -44,6 +44,16 @@ def run_case(c):
                     elif op[0] == "retime":
                         # what Cadence.overwrite_times does to its frames: the start time is simply assigned
                         fr.t_start = fr.t_start + op[1]
+                    elif op[0] == "modify":
+                        if op[1] == "inplace":
+                            fr.data[...] += 7.0
+                        elif op[1] == "rebind":
+                            fr.data = fr.data * 2.0 + 1.0
+                        elif op[1] == "signal":
+                            fr.add_constant_signal(f_start=fr.get_frequency(fr.fchans // 2), drift_rate=0.0, level=5000.0, width=2 * fr.df, f_profile_type="box")
+                        else:
+                            fr.zero_data()
+                            fr.data += np.arange(fr.fchans)[None, :] * 3.0 + np.arange(fr.tchans)[:, None] * 500.0
                     elif op[0] == "save":
                         fn = os.path.join(d, "mid%d.%s" % (k, op[1])); k += 1
                         (fr.save_fil if op[1] == "fil" else fr.save_h5)(fn)
